@@ -114,6 +114,12 @@ func vkLKRunOnce(sc vkLKScenario, order []string, T time.Duration) (res vkLKResu
 	}
 	defer w.close()
 	if err := w.begin(); err != nil {
+		if sl, ok := err.(*vkLKSlotLeak); ok {
+			_, _, _ = w.drain()
+			res.outcome = sc.Budgets + ":slot-held"
+			res.viols = append(res.viols, vkLKViol{"lookup/leak/upstream_slots_midrun", fmt.Sprintf("%s/%s: after the first caller started: %s", sc.Cfg, sc.Budgets, sl.msg)})
+			return res, false, nil
+		}
 		return res, false, err
 	}
 	if strings.ContainsRune(sc.Budgets, 'S') && !time.Now().Before(w.deadline.Add(-2*time.Millisecond)) {
@@ -133,6 +139,13 @@ func vkLKRunOnce(sc vkLKScenario, order []string, T time.Duration) (res vkLKResu
 			break
 		}
 		l, err := w.exec(ev)
+		if sl, ok := err.(*vkLKSlotLeak); ok {
+			_, _, _ = w.drain()
+			res.executed = k + 1
+			res.outcome = sc.Budgets + ":slot-held"
+			res.viols = append(res.viols, vkLKViol{"lookup/leak/upstream_slots_midrun", fmt.Sprintf("%s/%s: after event %s: %s", sc.Cfg, sc.Budgets, ev, sl.msg)})
+			return res, false, nil
+		}
 		if err != nil {
 			return res, false, err
 		}
@@ -241,6 +254,12 @@ func vkLKRunOnce(sc vkLKScenario, order []string, T time.Duration) (res vkLKResu
 		if relExecuted && (occWaiting || oc != "OK") {
 			add("lookup/occupant_failed", base+": the lookup that held the capacity slot got "+oc+" after its authority answered NOERROR")
 		}
+	}
+	// C13: a zone failure is shared state; it may be published only for a zone every one of whose
+	// servers failed to give a usable response. An authority scripted OK answers every query it is
+	// asked as soon as it is allowed to: whatever ended the lookup, that server did not fail.
+	if zf := w.fails.recorded(); len(zf) > 0 && okServer {
+		add("lookup/zone_failure_published", fmt.Sprintf("%s: a zone failure was published to the shared store for %v although an authority of that zone answers NOERROR whenever asked (servers %v): only a caller's own budget ended", base, zf, sc.Servers))
 	}
 	for _, l := range leaks {
 		d := l.what
@@ -459,8 +478,15 @@ func (e *vkLKExplorer) scenario(sc vkLKScenario, work *int) {
 	dfs(nil, make([]bool, len(events)))
 }
 
-func TestVerifC11Lookup(t *testing.T) {
-	c := vkit.Init("C11/lookup")
+func TestVerifC11Lookup(t *testing.T) { vkLKMain("C11/lookup", false) }
+
+// TestVerifC13Lookup: the same exploration restricted to the scenarios in which a request-local ending
+// (a short budget, or a capacity limit of 1) can meet an authority that answers NOERROR — judged for
+// "a zone failure is published only when every server of the zone failed" (key lookup/zone_failure_published).
+func TestVerifC13Lookup(t *testing.T) { vkLKMain("C13/sharedlookup", true) }
+
+func vkLKMain(unit string, c13 bool) {
+	c := vkit.Init(unit)
 	defer c.Close()
 	if err := vkLKStartServers(); err != nil {
 		c.HarnessError("servers: " + err.Error())
@@ -504,6 +530,15 @@ func TestVerifC11Lookup(t *testing.T) {
 	for _, sc := range vkLKScenarios(c.Thorough()) {
 		if e.stop {
 			break
+		}
+		if c13 {
+			ok := false
+			for _, k := range sc.Servers {
+				ok = ok || k == "OK"
+			}
+			if !ok || (sc.Cfg == "std" && !strings.ContainsRune(sc.Budgets, 'S')) {
+				continue
+			}
 		}
 		e.scenario(sc, &work)
 	}
